@@ -158,7 +158,7 @@ def build_drivers(it, p, names=(("DevA", "DEVA"), ("DevB", "DEVB")), router=None
     fr = Frame(None, mod, {})
     out = {}
     try:
-        classes = [drv] + [p.cls(f"{modname}.{c}") for c in extra_classes] + [p.cls(f"{modname}.{c}") for c, _ in names]
+        classes = [drv] + [p.cls(c if "." in c else f"{modname}.{c}") for c in extra_classes] + [p.cls(f"{modname}.{c}") for c, _ in names]
         for ci in classes:
             ns = Dct(label=f"{ci.name}.namespace")
             ns.set(Const("__module__"), Const(ci.module.name))
